@@ -249,7 +249,11 @@ def model_requests(steps, meta):
             if st["step"] < 0:
                 continue
             ps = [p for p in st["particles"] if not p["frozen"]]
-            decisions.append(all(p["tag"]["displacement__Old"][2] == p["tag"]["displacement"][2] for p in ps))
+            same = all(p["tag"]["displacement__Old"][2] == p["tag"]["displacement"][2] for p in ps)
+            # "rebuilt" shows as displacement == displacement__Old; when no free particle moves the two are equal after a mere refresh
+            # as well, so the step tells nothing (None)
+            moving = any(any(x != 0 for x in p["v"]) for p in ps)
+            decisions.append(same if (moving or not same) else None)
         # step -1 (initial) is the call with counter 0
         reqs.append(("every %d %d" % (meta["every"], len(decisions) + 1), None, decisions))
     return reqs
